@@ -107,6 +107,13 @@ func c10stack(c *fw.Ctx, r *rand.Rand) {
 		if sl := s.Slice(); !equalInts(sl, rev) || (len(ref) == 0 && sl != nil) {
 			fail("Slice=%v want %v (newest first)", sl, rev)
 			return
+		} else {
+			// the caller owns what Slice returned: scribbling over it must not reach the stack
+			for i := range sl {
+				sl[i] = -999
+			}
+			sl = append(sl, -998)
+			_ = sl
 		}
 		if len(ref) > 0 && len(ref)%3 == 1 {
 			// a scan abandoned half-way: the loop body panics, the caller recovers
@@ -125,6 +132,23 @@ func c10stack(c *fw.Ctx, r *rand.Rand) {
 		if !equalInts(each, rev) {
 			fail("Each=%v want %v", each, rev)
 			return
+		}
+		if len(ref) > 0 && len(ref) <= 40 {
+			// read-only calls from inside the loop body of Each
+			each = each[:0]
+			inner := true
+			s.Each(func(v int) bool {
+				each = append(each, v)
+				i := len(each) - 1
+				if pv, ok := s.Peek(i); !ok || pv != rev[i] || s.Top() != rev[0] || s.Len() != len(rev) || !equalInts(s.Slice(), rev) {
+					inner = false
+				}
+				return true
+			})
+			if !equalInts(each, rev) || !inner {
+				fail("Each with read-only calls (Peek, Top, Len, Slice) in its loop body yields %v (inner calls right: %v), want %v", each, inner, rev)
+				return
+			}
 		}
 		if len(ref) > 0 {
 			stop := i % len(ref)
@@ -247,6 +271,22 @@ func c10queue(c *fw.Ctx, r *rand.Rand) {
 		if !equalInts(each, ref) {
 			fail("Each=%v want %v", each, ref)
 			return
+		}
+		if len(ref) > 0 && len(ref) <= 40 {
+			each = each[:0]
+			inner := true
+			q.Each(func(v int) bool {
+				each = append(each, v)
+				i := len(each) - 1
+				if pv, ok := q.Peek(i); !ok || pv != ref[i] || q.Front() != ref[0] || q.Len() != len(ref) || i > len(ref)+3 {
+					inner = false
+				}
+				return i <= len(ref)+3
+			})
+			if !equalInts(each, ref) || !inner {
+				fail("Each with read-only calls (Peek, Front, Len) in its loop body yields %v (inner calls right: %v), want %v", each, inner, ref)
+				return
+			}
 		}
 		if len(ref) > 0 {
 			stop := i % len(ref)
